@@ -85,11 +85,11 @@ var scriptsMore = map[string][]string{
 	"C14": {"upload-delete-close", "upload-delete-close", "fail-then-replace-alive", "time-unit-change-close", "time-unit-change-close", "time-unit-change-close"},
 	"C09": {"price-drop-all-extend", "price-drop-all-extend", "fail-then-replace-alive", "upload-delete-close", "tiny-validator-reward", "tiny-validator-reward", "tiny-validator-reward"},
 	"C13": {"fail-then-replace-alive", "duplicate-blobber-alloc", "duplicate-blobber-alloc", "odd-extend-then-replace", "odd-extend-then-replace", "odd-extend-then-replace"},
-	"C24": {"free-out-of-order-replay"},
+	"C24": {"free-out-of-order-replay", "assigner-key-rotation", "assigner-key-rotation", "assigner-key-rotation"},
 }
 
 var scriptsC04 = []string{"third-party-extend", "owner-handover", "third-party-extend", "owner-handover", "killed-replace", "price-drop-extend", "kill-twice-close", "challenge-cycle",
-	"free-out-of-order-replay", "free-out-of-order-replay", "free-out-of-order-replay"}
+	"free-out-of-order-replay", "free-out-of-order-replay", "free-out-of-order-replay", "assigner-key-rotation", "assigner-key-rotation"}
 
 func histKey(h Hist) string {
 	b, _ := json.Marshal(h.Ops)
@@ -150,8 +150,11 @@ func main() {
 			}
 			shrunk[f.kind] = true
 			fk := f.kind
+			nShrink := 0
 			keep := vh.ShrinkIdx(len(h.Ops), func(keep []int) bool {
 				h2 := h
+				nShrink++
+				h2.Salt = fmt.Sprintf("%s-s%d", h.Salt, nShrink) // fresh identities: nothing remembered from earlier runs
 				h2.Ops = nil
 				for _, i := range keep {
 					h2.Ops = append(h2.Ops, h.Ops[i])
@@ -160,6 +163,7 @@ func main() {
 				return hasFail(f2, fk)
 			})
 			h2 := h
+			h2.Salt = h.Salt + "-min"
 			h2.Ops = nil
 			for _, i := range keep {
 				h2.Ops = append(h2.Ops, h.Ops[i])
